@@ -52,6 +52,8 @@ pub trait Gen: Send {
     fn jump(&mut self);
     fn long_jump(&mut self);
     fn clone_box(&self) -> Box<dyn Gen>;
+    /// `Clone::clone_from`: overwrite `self` with a clone of `src` (same concrete type)
+    fn clone_from_dyn(&mut self, src: &dyn Gen);
     /// None when the type has no PartialEq
     fn eq_dyn(&self, other: &dyn Gen) -> Option<bool>;
     fn debug(&self, alternate: bool) -> String;
@@ -139,6 +141,9 @@ pub trait Registry: Sync + Send {
     /// like `jitter`, but `clone()` of the generator gets an independent cursor over the same
     /// readings (an identical scripted timer) instead of sharing the call counter
     fn jitter_forking(&self, script: Arc<TimerScript>) -> Box<dyn Gen>;
+    /// A JitterRng whose timer is a zero-sized `fn` item (one distinct item type per slot, 3 slots)
+    /// reading from a process-wide script slot.
+    fn jitter_zst(&self, slot: usize, script: Arc<TimerScript>) -> Box<dyn Gen>;
     fn jitter_info(&self) -> &TypeInfo;
     /// IsaacArray<u32>/<u64> PartialEq probe: returns (pairs compared, first failure)
     fn isaac_array_probe(&self) -> (u64, Option<String>);
@@ -157,15 +162,24 @@ pub struct Horizon;
 pub struct TimerScript {
     pub readings: Arc<Vec<u64>>,
     pub pos: AtomicUsize,
+    /// user code that runs *inside* the timer read with the given index (a scheduling point inside one
+    /// operation): each entry fires once
+    pub hooks: std::sync::Mutex<Vec<(usize, Box<dyn FnOnce() + Send>)>>,
+    pub has_hooks: std::sync::atomic::AtomicBool,
 }
 
 impl TimerScript {
     pub fn new(readings: Vec<u64>) -> Arc<TimerScript> {
-        Arc::new(TimerScript { readings: Arc::new(readings), pos: AtomicUsize::new(0) })
+        Arc::new(TimerScript { readings: Arc::new(readings), pos: AtomicUsize::new(0), hooks: std::sync::Mutex::new(Vec::new()), has_hooks: std::sync::atomic::AtomicBool::new(false) })
     }
     /// An independent cursor over the same readings, starting at this cursor's position.
     pub fn fork(&self) -> Arc<TimerScript> {
-        Arc::new(TimerScript { readings: self.readings.clone(), pos: AtomicUsize::new(self.consumed()) })
+        Arc::new(TimerScript { readings: self.readings.clone(), pos: AtomicUsize::new(self.consumed()), hooks: std::sync::Mutex::new(Vec::new()), has_hooks: std::sync::atomic::AtomicBool::new(false) })
+    }
+    /// Run `f` inside the timer read number `index` (0-based).
+    pub fn hook_at(&self, index: usize, f: Box<dyn FnOnce() + Send>) {
+        self.hooks.lock().unwrap().push((index, f));
+        self.has_hooks.store(true, Ordering::Relaxed);
     }
     pub fn read(&self) -> u64 {
         let i = self.pos.fetch_add(1, Ordering::Relaxed);
@@ -173,6 +187,15 @@ impl TimerScript {
             // keep pos at len so that `consumed` stays meaningful
             self.pos.store(self.readings.len(), Ordering::Relaxed);
             std::panic::panic_any(Horizon);
+        }
+        if self.has_hooks.load(Ordering::Relaxed) {
+            let f = {
+                let mut h = self.hooks.lock().unwrap();
+                h.iter().position(|(k, _)| *k == i).map(|p| h.remove(p).1)
+            };
+            if let Some(f) = f {
+                f();
+            }
         }
         self.readings[i]
     }
